@@ -7,9 +7,9 @@ PID = "C06"
 
 
 def _cfg(depth, ill, extra="", focus="all", sim=False):
-    return ("CONSTANTS\n NP = 2\n NE = 1\n Depth = %d\n IllTyped = %s\n Sim = " + ("TRUE" if sim else "FALSE") + "\n Focus = \"%s\"\nINIT Init\nNEXT Next\n"
+    return ("CONSTANTS\n NP = 2\n NE = 1\n Depth = %d\n IllTyped = %s\n Sim = %s\n Focus = \"%s\"\nINIT Init\nNEXT Next\n"
             "INVARIANT Sound\nINVARIANT IllRaises\nINVARIANT Emit\nPROPERTY NoMutation\nCHECK_DEADLOCK FALSE\n%s"
-            % (depth, "TRUE" if ill else "FALSE", focus, extra))
+            % (depth, "TRUE" if ill else "FALSE", "TRUE" if sim else "FALSE", focus, extra))
 
 
 TRACE_CFG = ("CONSTANTS\n NP = 2\n NE = 1\n Depth = 0\n IllTyped = FALSE\n Sim = FALSE\n Focus = \"all\"\nINIT TInit\nNEXT Step\n"
